@@ -100,9 +100,16 @@ func init() {
 				meta["kind"] = "region"
 				meta["cmd"] = "kill-region"
 				sp.Binds = append(sp.Binds, Bind{Seq: `\C-x\C-za`, Cmd: "kill-region"})
+				// the mark at the point (set-mark takes the point only with an argument), a movement, then
+				// exchange-point-and-mark, which is what makes the region active in this library; one time in two
+				// the point and the mark are exchanged once more, so that the point is at either end of the region
 				mv := []string{"\x1bf", "\x1bb", "\x05", "\x01", "\x06", "\x02"}[r.Intn(6)]
-				keys = append(keys, "\x18\x190", "\x00", mv, "\x18\x1aa", "\x18\x1ab")
-				meta["probe"] = "4"
+				keys = append(keys, "\x18\x190", "\x1b1", "\x00", mv, "\x18\x18")
+				if r.Intn(2) == 0 {
+					keys = append(keys, "\x18\x18")
+				}
+				keys = append(keys, "\x18\x1aa", "\x18\x1ab")
+				meta["probe"] = fmt.Sprint(len(keys) - 1)
 			case 2: // two kills from fresh states: yank inserts the most recent
 				cmd := killCmds[r.Intn(len(killCmds))]
 				meta["kind"] = "latest"
@@ -168,8 +175,10 @@ func init() {
 			buf := []rune(c.Meta["buf"])
 			afterKill, afterYank := tr.Waits[probe], tr.Waits[probe+1]
 			if afterKill.Line == string(buf) {
+				stat("skipped: nothing removed/" + c.Meta["kind"])
 				return nil // nothing was removed
 			}
+			stat("decided: kill/" + c.Meta["kind"])
 			sig := c.Meta["kind"] + "/" + c.Meta["cmd"]
 			if c.Meta["count"] != "0" {
 				sig += "/count"
@@ -189,6 +198,14 @@ func init() {
 				if afterKill.Pos == i {
 					samePoint = true
 				}
+			}
+			// a region has two ends and the point is at one of them: wherever it was, killing the region and
+			// yanking at once puts the text back (the kill leaves the point where the text was)
+			if c.Meta["kind"] == "region" {
+				samePoint = true
+			}
+			if samePoint {
+				stat("decided: yank restores?/" + c.Meta["kind"])
 			}
 			if samePoint && afterYank.Line != string(buf) {
 				fs = append(fs, Finding{"C16", "yank-does-not-restore/" + sig, fmt.Sprintf("%q@%s -> %q -> yank %q (kill buffer %q)", string(buf), c.Meta["pos"], afterKill.Line, afterYank.Line, afterKill.Kill), c})
